@@ -69,3 +69,149 @@ REG.contract(T + "Response.__init__", params={"term": T + "Term"}, tags=["C15"],
                       "term.components == old(term.components)"])
 FUNCTIONS += [T + "Response.__init__"]
 ASSUMPTIONS += ["attributes assigned to opaque component objects (is_response) live in a per-attribute heap array"]
+
+# ---- Model as ordered duplicate-free term lists: + is union, - is difference (C02) --------------
+import z3 as _z3
+from vf.pyvc.values import SOpaque as _SOpaque
+from vf.pyvc.opaque import ufun as _ufun, U as _U
+import formulae.terms.terms as _tt
+
+REG.declare_class(T + "Model", {"common_terms": "list[any]", "group_terms": "list[any]", "response": "any"})
+
+
+def _mk_singleton(cls_name):
+    def model(I, a, kw, node):
+        return _SOpaque(_z3.Const(f"U!the{cls_name}", _U()), "any")      # all Intercept() objects are == (Intercept.__eq__)
+    return model
+
+
+REG.externals[T + "Intercept"] = _mk_singleton("Intercept")
+REG.externals[T + "NegatedIntercept"] = _mk_singleton("NegatedIntercept")
+
+
+def class_facts(reg, twin=False):
+    """Every term object is of exactly one of the term classes; Intercept() == Intercept() (its __eq__ is isinstance)."""
+    x, y = _z3.Consts("cf_x cf_y", _U())
+    P = {n: _ufun(f"isinst!{n}", _U(), _z3.BoolSort()) for n in ("Term", "GroupSpecificTerm", "Intercept", "NegatedIntercept", "Model")}
+    names = list(P)
+    excl = [_z3.Not(_z3.And(P[a](x), P[b](x))) for i, a in enumerate(names) for b in names[i + 1:]]
+    icpt = _z3.Const("U!theIntercept", _U())
+    neg = _z3.Const("U!theNegatedIntercept", _U())
+    return _z3.And(_z3.ForAll([x], _z3.And(*excl)), P["Intercept"](icpt), P["NegatedIntercept"](neg),
+                   _z3.ForAll([x], _z3.Implies(P["Intercept"](x), x == icpt)),
+                   _z3.ForAll([x], _z3.Implies(P["NegatedIntercept"](x), x == neg)))
+
+
+if not hasattr(REG, "lemmas"):
+    REG.lemmas = []
+REG.lemmas.append(class_facts)
+
+
+def is_a(x, name):
+    return type(x).__name__ == name
+
+
+def _is_a(I, a, kw, node):
+    from vf.pyvc.ops import bool_val
+    return bool_val(_ufun(f"isinst!{a[1]}", _U(), _z3.BoolSort())(a[0].t))
+
+
+REG.externals[f"{__name__}.is_a"] = _is_a
+NODUP = ("forall(0, len({L}), lambda a: forall(0, len({L}), lambda b: implies(a != b, {L}[a] != {L}[b])))")
+INV_M = [NODUP.format(L="self.common_terms"), NODUP.format(L="self.group_terms"),
+         "forall(0, len(self.group_terms), lambda k: is_a(self.group_terms[k], 'GroupSpecificTerm'))",
+         "forall(0, len(self.common_terms), lambda k: not is_a(self.common_terms[k], 'GroupSpecificTerm'))"]
+INV_M_POST = [c for c in INV_M]
+
+REG.contract(T + "Model.add_term", params={"term": "any"}, returns=T + "Model", tags=["C02"],
+             requires=INV_M, modifies=["self.common_terms", "self.group_terms"],
+             raises={"ValueError": "not (is_a(term, 'GroupSpecificTerm') or is_a(term, 'Term') or is_a(term, 'Intercept'))"},
+             ensures=INV_M_POST + [
+                 "result == self",
+                 # union with the new term, existing order kept
+                 "forall_obj(lambda x: (x in self.common_terms) == ((x in old(self.common_terms)) or "
+                 "(x == term and not is_a(term, 'GroupSpecificTerm'))))",
+                 "forall_obj(lambda x: (x in self.group_terms) == ((x in old(self.group_terms)) or "
+                 "(x == term and is_a(term, 'GroupSpecificTerm'))))",
+                 "forall(0, old(len(self.common_terms)), lambda k: self.common_terms[k] == old(self.common_terms)[k])",
+                 "forall(0, old(len(self.group_terms)), lambda k: self.group_terms[k] == old(self.group_terms)[k])"])
+REG.contract(T + "Model.terms", returns="list[any]", tags=["C02"],
+             ensures=["len(result) == len(self.common_terms) + len(self.group_terms)",
+                      "forall(0, len(self.common_terms), lambda k: result[k] == self.common_terms[k])",
+                      "forall(0, len(self.group_terms), lambda k: result[len(self.common_terms) + k] == self.group_terms[k])"])
+# '-' : set difference (the right operand is a single term here; the Model - Model variant is below)
+REG.contract(T + "Model.__sub__", params={"other": "any"}, returns=T + "Model", tags=["C02"],
+             requires=INV_M + ["is_a(other, 'Term') or is_a(other, 'Intercept') or is_a(other, 'GroupSpecificTerm')",
+                               "not is_a(other, 'Model')"],
+             modifies=["self.common_terms", "self.group_terms"],
+             ensures=INV_M_POST + [
+                 "result == self",
+                 "forall_obj(lambda x: (x in self.common_terms) == ((x in old(self.common_terms)) and "
+                 "not (x == other and not is_a(other, 'GroupSpecificTerm'))))",
+                 "forall_obj(lambda x: (x in self.group_terms) == ((x in old(self.group_terms)) and "
+                 "not (x == other and is_a(other, 'GroupSpecificTerm'))))"])
+# '+' with a single term / intercept literal on the right
+REG.contract(T + "Model.__add__", params={"other": "any"}, returns=T + "Model", tags=["C02"],
+             requires=INV_M + ["is_a(other, 'Term') or is_a(other, 'Intercept') or is_a(other, 'GroupSpecificTerm') "
+                               "or is_a(other, 'NegatedIntercept')"],
+             modifies=["self.common_terms", "self.group_terms"],
+             ensures=INV_M_POST + [
+                 "result == self",
+                 # + 0 removes the intercept; anything else is union
+                 "implies(is_a(other, 'NegatedIntercept'), forall_obj(lambda x: (x in self.common_terms) == "
+                 "((x in old(self.common_terms)) and not is_a(x, 'Intercept'))))",
+                 "implies(not is_a(other, 'NegatedIntercept'), forall_obj(lambda x: (x in self.common_terms) == "
+                 "((x in old(self.common_terms)) or (x == other and not is_a(other, 'GroupSpecificTerm')))))",
+                 "forall_obj(lambda x: (x in self.group_terms) == ((x in old(self.group_terms)) or "
+                 "(x == other and is_a(other, 'GroupSpecificTerm'))))"])
+
+FUNCTIONS += [T + "Model.add_term", T + "Model.terms", T + "Model.__sub__", T + "Model.__add__"]
+ASSUMPTIONS += ["term objects inside a Model are opaque values; == on them is modelled as equality (Intercept() == Intercept() by the "
+                "class_facts lemma mirroring Intercept.__eq__); each object belongs to exactly one term class",
+                "list.remove(x) removes the first element equal to x"]
+
+# ---- Model (+|-) Model -------------------------------------------------------------------------------
+INV_O = [c.replace("self.", "other.") for c in INV_M]
+OTHER_OK = ["forall(0, len(other.common_terms), lambda k: is_a(other.common_terms[k], 'Term') or is_a(other.common_terms[k], 'Intercept'))"]
+REG.contract(T + "Model.__add__#model", of=T + "Model.__add__", params={"other": T + "Model"}, returns=T + "Model", tags=["C02"],
+             requires=INV_M + INV_O + OTHER_OK, modifies=["self.common_terms", "self.group_terms"],
+             ensures=INV_M_POST + [
+                 "result == self",
+                 "forall_obj(lambda x: (x in self.common_terms) == ((x in old(self.common_terms)) or (x in other.common_terms)))",
+                 "forall_obj(lambda x: (x in self.group_terms) == ((x in old(self.group_terms)) or (x in other.group_terms)))",
+                 "forall(0, old(len(self.common_terms)), lambda k: self.common_terms[k] == old(self.common_terms)[k])"],
+             loops={1: Loop(invariant=INV_M + [
+                 "0 <= _i1", "_i1 <= len(other.common_terms) + len(other.group_terms)",
+                 "old(len(self.common_terms)) <= len(self.common_terms)",
+                 "forall(0, old(len(self.common_terms)), lambda k: self.common_terms[k] == old(self.common_terms)[k])",
+                 "forall_obj(lambda x: (x in self.common_terms) == ((x in old(self.common_terms)) or "
+                 "exists(0, _i1, lambda k: k < len(other.common_terms) and other.common_terms[k] == x)))",
+                 "forall_obj(lambda x: (x in self.group_terms) == ((x in old(self.group_terms)) or "
+                 "exists(len(other.common_terms), _i1, lambda k: other.group_terms[k - len(other.common_terms)] == x)))"],
+                 modifies=["self.common_terms", "self.group_terms"])})
+REG.contract(T + "Model.__sub__#model", of=T + "Model.__sub__", params={"other": T + "Model"}, returns=T + "Model", tags=["C02"],
+             requires=INV_M + INV_O, modifies=["self.common_terms", "self.group_terms"],
+             ensures=INV_M_POST + [
+                 "result == self",
+                 "forall_obj(lambda x: (x in self.common_terms) == ((x in old(self.common_terms)) and not (x in other.common_terms)))",
+                 "forall_obj(lambda x: (x in self.group_terms) == ((x in old(self.group_terms)) and not (x in other.group_terms)))"],
+             loops={1: Loop(invariant=INV_M + [
+                 "0 <= _i1", "_i1 <= len(other.common_terms) + len(other.group_terms)",
+                 "forall_obj(lambda x: (x in self.common_terms) == ((x in old(self.common_terms)) and "
+                 "not exists(0, _i1, lambda k: k < len(other.common_terms) and other.common_terms[k] == x)))",
+                 "forall_obj(lambda x: (x in self.group_terms) == ((x in old(self.group_terms)) and "
+                 "not exists(len(other.common_terms), _i1, lambda k: other.group_terms[k - len(other.common_terms)] == x)))"],
+                 modifies=["self.common_terms", "self.group_terms"])})
+FUNCTIONS += [T + "Model.__add__#model", T + "Model.__sub__#model"]
+ASSUMPTIONS += ["Model (+|-) Model is verified for two distinct Model objects (no aliasing of self and other)"]
+
+ACC = "(is_a({x}, 'Term') or is_a({x}, 'GroupSpecificTerm') or is_a({x}, 'Intercept') or is_a({x}, 'NegatedIntercept'))"
+REG.contract(T + "Model.__init__", params={"terms": "list[any]", "response": "any"}, tags=["C02"],
+             requires=["response is None"],
+             modifies=["self.common_terms", "self.group_terms", "self.response"],
+             raises={"ValueError": "exists(0, len(terms), lambda k: not " + ACC.format(x="terms[k]") + ")"},
+             ensures=["self.response is None",
+                      # the terms are split by kind, order kept, nothing added or lost
+                      "forall_obj(lambda x: (x in self.common_terms) == (x in terms and not is_a(x, 'GroupSpecificTerm')))",
+                      "forall_obj(lambda x: (x in self.group_terms) == (x in terms and is_a(x, 'GroupSpecificTerm')))"])
+FUNCTIONS += [T + "Model.__init__"]
